@@ -71,7 +71,10 @@ PROPS = {
     "C12": h1prop("PigeonVerif.Properties.C12", P(["errs", "mf"]),
                   [("core", 5000, 150000), ("utf8", 1000, 30000), ("throw", 1000, 30000), ("lr", 1000, 20000)], oracles=[orc_c12],
                   # Memoize must not change the failure report (C12 has no exemption for it); known finding D30
-                  twins=twins_c12, twin_rel=rel_c12),
+                  twins=twins_c12, twin_rel=rel_c12,
+                  # the REAL tool's syntax errors: the tables of grammar/pigeon.peg run by the model predict `pigeon -x`'s
+                  # diagnostic byte for byte (position, expected set, EOF) on generated / mutated grammar texts
+                  front_model=(250, 6000)),
     "C13": dict(module="PigeonVerif.Properties.C13", run=tool_check.run_c13, level="other",
                 rule="the real pigeon binary (fresh process, 10 s timeout) on valid generated grammars, token/byte mutations, splices, truncations and raw bytes x random flag sets; classified: exit status in the documented set, no panic trace, no hang, exit 0 => output parses as Go, exit 0 never for a text the front-end rejects, non-zero => diagnostic on stderr",
                 explanation="totality of the tool is decided by execution on generated and mutated inputs; Lean covers the exit-status decision logic of main()"),
